@@ -365,6 +365,38 @@ func TestVerifCodec(t *testing.T) {
 				}
 			}
 		}
+		// the same codec and the same message object again, after the application changed
+		// the message: the output must be the encoding of the message as it is now
+		{
+			extra := protowire.AppendTag(nil, protowire.Number(1000+rng.Intn(1000)), protowire.VarintType)
+			extra = protowire.AppendVarint(extra, uint64(rng.Intn(1<<20)))
+			m.ProtoReflect().SetUnknown(append(append([]byte(nil), m.ProtoReflect().GetUnknown()...), extra...))
+			now := proto.Clone(m)
+			var got2 []byte
+			var err2 error
+			h2 := vStartOp(func() { got2, err2 = c.Marshal(m) })
+			if st := h2.awaitDone(60e9); st != vDone || h2.panicked {
+				report(idx, "C19.panic", "remarshal", fmt.Sprintf("second Marshal of the same object panicked or hung: %v %s", h2.pval, st), lg)
+				continue
+			}
+			out.hit("C19.remarshal-modified")
+			if err2 == nil {
+				d := now.ProtoReflect().New().Interface()
+				if len(got2) < 6 || proto.Unmarshal(got2[6:], d) != nil || !proto.Equal(d, now) {
+					report(idx, "C19.wire-format", "remarshal-stale", fmt.Sprintf("the same message object was marshalled again after a field was added: the payload of the second output (%d bytes) does not decode to the message as it is now (first output %d bytes)", len(got2), len(got)), lg)
+					continue
+				}
+				var crc2 [4]byte
+				binary.LittleEndian.PutUint32(crc2[:], crc32.Checksum(got2[6:], castagnoli))
+				if !bytes.Equal(got2[2:6], crc2[:]) {
+					report(idx, "C19.wire-format", "remarshal-checksum", "second Marshal of the same object: the checksum field does not match the payload", lg)
+					continue
+				}
+			} else if rec.lastErr == nil {
+				report(idx, "C19.spurious-error", "remarshal", fmt.Sprintf("second Marshal failed with %v although the inner codec succeeded", err2), lg)
+				continue
+			}
+		}
 		out.nontrivial(vHashStrings([]string{kind, fmt.Sprintf("%x", crc), fmt.Sprint(len(b))}))
 		if len(out.Samples) < 3 && len(b) > 0 && len(b) < 200 {
 			out.sample(map[string]interface{}{"case": idx, "kind": kind, "payload_len": len(b), "output_prefix": fmt.Sprintf("%x", got[:6])})
